@@ -40,6 +40,15 @@ def documents(pm: ProgramModel, mb: ModelBuilder) -> dict[str, list[tuple[str, A
                           ("reference/quoted+parens+merged", c04.RefEmitter(True, True, True).emit(ref4), ref4)]
     m = rich_model(mb)
     docs["UVLReader"].append(("written/rich", written("UVLWriter", m), m))
+    for wname, rname in (("UVLWriter", "UVLReader"), ("JSONWriter", "JSONReader")):
+        r0 = mb.feature("R")
+        for nm in ("A", "B", "C"):
+            f = mb.feature(nm)
+            mb.relation(r0, [f], 0, 1)
+            f._f["attributes"].append(mb.attribute("cost", 10, f))
+            f._f["attributes"].append(mb.attribute("label", "x", f))
+        m = mb.model(r0, [])
+        docs[rname].append(("written/same-attribute-on-several-features", written(wname, m), m))
     m = c06.afm_rich(mb)
     docs["AFMReader"].append(("written/rich", written("AFMWriter", m), m))
     n, o = mb.node, mb.op
